@@ -66,11 +66,14 @@ def labels_of(line):
 
 class PROP(PropCheck):
     id = "C11"
+    mismatch_is_failure = False
     theorems = ["C11_tok_label_ok", "C11_parse_error_labels", "C11_parse_ast_spans", "C11_parse_ast_pairs",
-                "C11_runtime_label_from_tree", "C11_runtime_label_in_source", "C11_parse_label_in_source"]
+                "C11_runtime_label_from_tree", "C11_runtime_label_in_source", "C11_parse_label_in_source",
+                "C11_parse_sound", "C11_label_roles", "C11_subnode_segment", "C11_own_label_within", "C11_label_at_construct"]
+    audit_modules = ["C11", "C11b", "C11c", "C11d", "C11e"]
     coq_imports = ["Obs"]
     model_targets = ["theories/Obs.vo"]
-    prop_targets = ["theories/Props/C11.vo"]
+    prop_targets = ["theories/Props/C11.vo", "theories/Props/C11b.vo", "theories/Props/C11c.vo", "theories/Props/C11d.vo", "theories/Props/C11e.vo"]
     harness_mode = "run"
     trusted_base = [
         "Coq 8.16.1 kernel and bytecode VM",
